@@ -737,6 +737,9 @@ class TV:
                     exp.append({"conds": neg, "st": vals, "trace": [], "term": ("return", "FAIL"), "advance_before_return": False})
                 else:
                     t = self.spec.lookup(state, End)
+                    if t is not None and t.error_handling and self.spec.is_accepting(state):
+                        # the input may stop in an accepting state: that is the end of the program, not a mismatch (C01/C10)
+                        t = None
                     if t is None:
                         code = "DONE" if self.spec.is_accepting(state) else "FAIL"
                         exp = [{"conds": [], "st": vals, "trace": [], "term": ("return", code), "advance_before_return": False}]
